@@ -307,9 +307,10 @@ theorem recv_path_reports (p : Bool) : recvFinal ⟨true, p⟩ .redirect = .typo
 
 open GunYu.ClusterSender in
 /-- once the pipelined receiver has seen a failed batch nothing more is sent (in particular no
-    resume position covering the commands of the failed batch) -/
-theorem recv_failed_sends_nothing (m : SMode) (outs : List (Option SErr)) :
-    (sendFuncR m true outs).1 = 0 ∧ (sendFuncR m false outs) = sendFunc m outs 0 := ⟨rfl, rfl⟩
+    resume position covering the commands of the failed batch) and the run reports the receiver's
+    error class, not a generic one -/
+theorem recv_failed_sends_nothing (m : SMode) (e : SErr) (outs : List (Option SErr)) :
+    sendFuncR m (some e) outs = (0, recvFinal m e) ∧ sendFuncR m none outs = sendFunc m outs 0 := ⟨rfl, rfl⟩
 
 open GunYu.ClusterSender in
 /-- in every mode a failing batch is sent at most three times before the error
